@@ -9,8 +9,8 @@
 #define GALOIS_SYS_DIE(...) abort()
 #undef GALOIS_ASSERT
 #define GALOIS_ASSERT(cond, ...) do { if (!(cond)) abort(); } while (0)
-#include "../../repo/libgalois/src/FileGraph.cpp"
-#include "../../repo/libgalois/src/PageAlloc.cpp"
+#include "../src/FileGraph.cpp"
+#include "../src/PageAlloc.cpp"
 
 // ---- harness prelude: one-thread pool and per-thread storage backend (see ASSUME)
 namespace galois::substrate {
